@@ -23,6 +23,40 @@ pub struct XDec {
     pub out: Vec<u8>,
 }
 
+/// A source that hands out at most `step` bytes per call and a sink that accepts at most
+/// `step` bytes per call, implemented on the instance's own I/O traits (std::io or the crate's
+/// no_std shims), so that `read_exact` / `write_all` of every configuration do real work.
+pub struct ShortSrc<'a> {
+    data: &'a [u8],
+    pos: usize,
+    step: usize,
+}
+
+impl lio::Read for ShortSrc<'_> {
+    fn read(&mut self, buf: &mut [u8]) -> lio::Res<usize> {
+        let n = buf.len().min(self.step).min(self.data.len() - self.pos);
+        buf[..n].copy_from_slice(&self.data[self.pos..self.pos + n]);
+        self.pos += n;
+        Ok(n)
+    }
+}
+
+pub struct ShortSink {
+    out: Vec<u8>,
+    step: usize,
+}
+
+impl lio::Write for ShortSink {
+    fn write(&mut self, buf: &[u8]) -> lio::Res<usize> {
+        let n = buf.len().min(self.step);
+        self.out.extend_from_slice(&buf[..n]);
+        Ok(n)
+    }
+    fn flush(&mut self) -> lio::Res<()> {
+        Ok(())
+    }
+}
+
 fn lzma_options(o: &Opts) -> lz::LZMAOptions {
     let mut l = lz::LZMAOptions::new(o.dict, o.lc, o.lp, o.pb, if o.mode == 0 { lz::EncodeMode::Fast } else { lz::EncodeMode::Normal }, o.nice, if o.mf == 0 { lz::MFType::HC4 } else { lz::MFType::BT4 }, o.depth);
     l.preset_dict = o.preset.as_ref().map(|p| p.gen());
@@ -69,7 +103,7 @@ pub fn encode(case: &Case, data: &[u8], pieces: &[usize], bias: i32) -> XEnc {
     lz::verif::set_pos_bias(bias);
     let r = guarded(|| -> Result<Vec<u8>, u8> {
         let o = &case.opt;
-        let mut out: Vec<u8> = Vec::new();
+        let mut out = ShortSink { out: Vec::new(), step: case.knob_or("io_step", 1 << 30).max(1) as usize };
         match case.fmt.as_str() {
             "lzma" => {
                 let hdr = case.knob("hdr") != 0;
@@ -96,7 +130,7 @@ pub fn encode(case: &Case, data: &[u8], pieces: &[usize], bias: i32) -> XEnc {
                 w.finish().map_err(|e| lio::class(&e))?;
             }
         }
-        Ok(out)
+        Ok(out.out)
     });
     lz::verif::set_pos_bias(0);
     match r {
@@ -131,6 +165,7 @@ pub fn decode(case: &Case, stream: &[u8], total: usize, sizes: &[usize], cap: us
     let r = guarded(|| -> Result<(), u8> {
         let o = &case.opt;
         let preset = o.preset.as_ref().map(|p| p.gen());
+        let stream = ShortSrc { data: stream, pos: 0, step: case.knob_or("io_step", 1 << 30).max(1) as usize };
         match case.fmt.as_str() {
             "lzma" => {
                 let mut rd = if case.knob("hdr") != 0 {
